@@ -42,6 +42,15 @@ static blk_t *h_take(void *p) {
   if (!*pp) return NULL;
   blk_t *b = *pp; *pp = b->next; h_live_blocks--; return b;
 }
+/* size the ledger holds for a live block, or (size_t)-1 if `p` is not a live block (used by printf ops:
+   gmp_asprintf must hand back a block of exactly length+1 bytes) */
+size_t h_block_size(void *p) {
+  size_t r = (size_t)-1;
+  LOCK();
+  for (blk_t *b = htab[hidx(p)]; b; b = b->next) if (b->p == p) { r = b->sz; break; }
+  UNLOCK();
+  return r;
+}
 static void h_free_nl(void *p, size_t sz) {
   h_free_calls++;
   blk_t *b = h_take(p);
